@@ -1,3 +1,119 @@
-"""placeholder, replaced below"""
+"""Proof-obligation step of a check run: build the Lean project, audit sources and axioms.
+
+The Lean sources do not read /repo: they are tied to the code by the correspondence suites.
+A failure here on a clean /verif is therefore a failure of the machinery (exit 2), never a
+verdict about the repository.
+"""
+import os
+import re
+import subprocess
+import time
+
+from crlib import VERIF
+
+LEAN_DIR = os.path.join(VERIF, "lean")
+ALLOWED_AXIOMS = {"propext", "Classical.choice", "Quot.sound"}
+FORBIDDEN = re.compile(r"\bsorry\b|\badmit\b|^\s*axiom\s|native_decide|bv_decide|implemented_by|"
+                       r"\bunsafe\s|maxHeartbeats\s+0\b|@\[extern", re.M)
+
+TRUSTED_BASE = [
+    "Lean 4.33.0 kernel (thorough tier: re-checked with leanchecker)",
+    "axioms allowed in property theorems: propext, Classical.choice, Quot.sound (audited with #print axioms on every run); no sorry/admit/axiom/native_decide/bv_decide/implemented_by/unsafe (source grep on every run)",
+    "Mathlib v4.33.0 single modules imported by proof files only",
+    "hand-written executable Lean model of the Python code (CR/Model/*.lean); tied to /repo's working tree only by the correspondence suites run by this check",
+    "Python harness, generators and exact-Fraction oracles: trusted for the failing-input search and the direct oracle pass, not for the theorems",
+    "exact-arithmetic theorems vs IEEE doubles: the Float instantiation of the same model is compared with CPython bit-for-bit / within 1e-12; nothing is proved about rounding error",
+    "CPython random/repr/eval/argparse/filesystem/deepcopy: not modelled",
+]
+
+
+def strip_comments(src):
+    src = re.sub(r"/-.*?-/", "", src, flags=re.S)
+    src = re.sub(r"--[^\n]*", "", src)
+    return src
+
+
+def cone_files():
+    out = []
+    for root, _, files in os.walk(os.path.join(LEAN_DIR, "CR")):
+        for f in files:
+            if f.endswith(".lean"):
+                out.append(os.path.join(root, f))
+    out.append(os.path.join(LEAN_DIR, "Driver.lean"))
+    return sorted(out)
+
+
+def theorem_names(prop):
+    p = os.path.join(LEAN_DIR, "CR", "Props", f"{prop}.lean")
+    if not os.path.exists(p):
+        return []
+    src = strip_comments(open(p).read())
+    ns = re.findall(r"^namespace\s+(\S+)", src, flags=re.M)
+    prefix = (ns[0] + ".") if ns else ""
+    names = re.findall(r"^\s*(?:protected\s+|private\s+)?theorem\s+([^\s:({\[]+)", src, flags=re.M)
+    return [prefix + n for n in names], len(re.findall(r"^\s*example\b", src, flags=re.M))
+
+
 def run(prop, tier):
-    return {"fatal": "lean project not built"}
+    t0 = time.time()
+    res = {"obligations": 0, "discharged": 0, "theorems": [], "axioms": {}, "failed": [],
+           "trusted_base": TRUSTED_BASE,
+           "checker_cmd": f"cd lean && lake build CR crmodel && lake env lean <generated #print axioms file for CR.Props.{prop}>"
+                          + (" && lake env leanchecker CR.Props." + prop if tier == "thorough" else "")}
+    env = dict(os.environ)
+    p = subprocess.run(["lake", "build", "CR", "crmodel"], cwd=LEAN_DIR, capture_output=True, text=True, env=env)
+    if p.returncode != 0:
+        res["fatal"] = "lake build failed:\n" + (p.stdout + p.stderr)[-3000:]
+        return res
+    # source audit of the whole cone (cheap)
+    bad = []
+    for f in cone_files():
+        m = FORBIDDEN.search(strip_comments(open(f).read()))
+        if m:
+            bad.append(f"{os.path.relpath(f, LEAN_DIR)}: {m.group(0).strip()}")
+    if bad:
+        res["fatal"] = "forbidden construct in Lean sources: " + "; ".join(bad)
+        return res
+    tn = theorem_names(prop)
+    if not tn:
+        res["fatal"] = f"no property theorem file CR/Props/{prop}.lean"
+        return res
+    names, n_examples = tn
+    res["obligations"] = len(names) + n_examples
+    audit = os.path.join(LEAN_DIR, ".lake", f"audit_{prop}.lean")
+    with open(audit, "w") as f:
+        f.write(f"import CR.Props.{prop}\n")
+        for n in names:
+            f.write(f"#print axioms {n}\n")
+    p = subprocess.run(["lake", "env", "lean", audit], cwd=LEAN_DIR, capture_output=True, text=True, env=env)
+    out = p.stdout + p.stderr
+    ok = 0
+    for n in names:
+        m = re.search(r"'" + re.escape(n) + r"' (does not depend on any axioms|depends on axioms: \[([^\]]*)\])", out)
+        if not m:
+            res["failed"].append(n + " (not found)")
+            continue
+        axs = set(a.strip() for a in (m.group(2) or "").replace("\n", " ").split(",") if a.strip())
+        res["axioms"][n] = sorted(axs)
+        if axs <= ALLOWED_AXIOMS:
+            ok += 1
+        else:
+            res["failed"].append(n + " (axioms " + ",".join(sorted(axs - ALLOWED_AXIOMS)) + ")")
+    res["theorems"] = names
+    # the examples (non-vacuity) compiled as part of the module build
+    res["discharged"] = ok + (n_examples if p.returncode == 0 else 0)
+    if p.returncode != 0:
+        res["fatal"] = "axiom audit failed to run:\n" + out[-2000:]
+        return res
+    if res["failed"]:
+        res["fatal"] = "axiom audit: " + "; ".join(res["failed"])
+        return res
+    if tier == "thorough":
+        p = subprocess.run(["lake", "env", "leanchecker", f"CR.Props.{prop}"], cwd=LEAN_DIR,
+                           capture_output=True, text=True, env=env)
+        res["leanchecker"] = "ok" if p.returncode == 0 else (p.stdout + p.stderr)[-1500:]
+        if p.returncode != 0:
+            res["fatal"] = "leanchecker rejected CR.Props." + prop + ": " + res["leanchecker"]
+            return res
+    res["lean_wall_s"] = round(time.time() - t0, 2)
+    return res
